@@ -20,12 +20,19 @@ func verifC17(calls int) {
 	var log []rec
 	cur := 0
 	ctxOK := true
+	// the caller's context may already be cancelled when Invalidate is called, or be cancelled by the first
+	// callback: an accepted invalidation still runs every callback
+	cancelMode := verifChoice("callerCtx", 3) // 0 live, 1 cancelled before the call, 2 cancelled by the first callback
+	cancelled := false
 	for j := 0; j < m; j++ {
 		j := j
 		inv.Callbacks = append(inv.Callbacks, func(ctx context.Context) {
 			log = append(log, rec{cur, j})
 			if ctx.Value(verifCtxTag{}) != cur {
 				ctxOK = false
+			}
+			if cancelMode == 2 && j == 0 {
+				cancelled = true
 			}
 		})
 	}
@@ -49,7 +56,12 @@ func verifC17(calls int) {
 	for c := 0; c < calls; c++ {
 		cur = c
 		n0, l0 := len(readings), len(log)
-		err := inv.Invalidate(context.WithValue(context.Background(), verifCtxTag{}, c))
+		cancelled = cancelMode == 1
+		var callCtx context.Context = context.WithValue(context.Background(), verifCtxTag{}, c)
+		if cancelMode != 0 {
+			callCtx = verifCallerCtx{Context: callCtx, cancelled: &cancelled, done: nil, noDeadline: true}
+		}
+		err := inv.Invalidate(callCtx)
 		if m == 0 {
 			verifReach("no callbacks")
 			verifAssert("ErrNothingToInvalidate without callbacks", err != nil && errors.Is(err, ErrNothingToInvalidate))
